@@ -6,7 +6,7 @@ open ElaVerif.Index ElaVerif.Node Driver BlockSpec
 /-!
   Line protocol of the node harnesses (C06, C12, C14, C30; see harness/regnet/sim.go):
     reset
-    init <reward> <maturity> <minFee> <guardFrom> <genesis block>
+    init <reward> <maturity> <minFee> <guardFrom> <checkRewardFrom> <genesis block>
     deliver <block>        → main|side|orphan|err <tipHeight> <tipId>
     submit <tx>            → ok | err
     irr <lih> <dpos 0|1> <revertStart>     (C30: sets the DPoS state fields the guard reads)
@@ -50,11 +50,11 @@ def blank : NState := initState { reward := 0, maturity := 0, minFee := 0 } { id
 
 def step (s : NState) : List String → NState × String
   | ["reset"] => (blank, "ok")
-  | "init" :: r :: m :: f :: g :: ts =>
-    match int? r, nat? m, int? f, nat? g, pBlock ts with
-    | some r, some m, some f, some g, some b =>
-      (initState { reward := r, maturity := m, minFee := f, guardFrom := g } b, "ok")
-    | _, _, _, _, _ => (s, "bad-op")
+  | "init" :: r :: m :: f :: g :: c :: ts =>
+    match int? r, nat? m, int? f, nat? g, nat? c, pBlock ts with
+    | some r, some m, some f, some g, some c, some b =>
+      (initState { reward := r, maturity := m, minFee := f, guardFrom := g, checkRewardFrom := c } b, "ok")
+    | _, _, _, _, _, _ => (s, "bad-op")
   | "deliver" :: ts =>
     match pBlock ts with
     | some b =>
